@@ -249,6 +249,25 @@ def stepPlanops (growth : String) (secs : List (List String)) : String :=
     | none => "bad-op"
   | _ => "bad-op"
 
+/-- `linconst ; <codes p|v|l> ; <levels> ; <dyn expr> [!! <steady expr>] | …` -> the constants of the first-order system -/
+def stepLinconst (secs : List (List String)) : String :=
+  match secs with
+  | [codes, ls, es] =>
+    let codes : List Char := (codes.headD "").toList
+    let code : Nat → Char := fun q => (codes[q]?).getD 'p'
+    let eq? (ws : List String) : Option Equation :=
+      match (" ".intercalate ws).splitOn "!!" with
+      | [d] => (exprAll? (words d)).map (fun d => { dynamic := d })
+      | [d, st] => do
+        let d ← exprAll? (words d); let st ← exprAll? (words st)
+        pure { dynamic := d, steady := some st }
+      | _ => none
+    match ls.mapM cell?, (splitBar es).mapM eq? with
+    | some ls, some eqs =>
+      showCells (linearConstants (fun q => code q = 'p') (fun q => code q = 'l') (fnOf ls) eqs)
+    | _, _ => "bad-op"
+  | _ => "bad-op"
+
 def step (line : String) : String :=
   match sections line with
   | ["consts"] :: [] => QMat.showRat IrisVerif.Steady.expNinth
@@ -262,6 +281,7 @@ def step (line : String) : String :=
   | ["linchk"] :: rest => stepLinchk rest
   | ["measchk"] :: rest => stepMeaschk rest
   | ["meas"] :: rest => stepMeas rest
+  | ["linconst"] :: rest => stepLinconst rest
   | _ => "bad-op"
 
 end IrisVerif.Driver.C05
